@@ -32,6 +32,7 @@ type Script struct {
 	// When non-empty, definitions are parametrised (first-exit loop bodies).
 	paramName string
 	size      int
+	asserted  map[string]bool // assertions made so far (exact duplicates are not repeated)
 }
 
 func NewScript() *Script {
@@ -86,6 +87,13 @@ func (s *Script) Assert(term string) {
 	if term == "true" {
 		return
 	}
+	if s.asserted == nil {
+		s.asserted = map[string]bool{}
+	}
+	if s.asserted[term] {
+		return // stated before: it is part of every prefix this line would belong to
+	}
+	s.asserted[term] = true
 	s.add("(assert " + term + ")")
 }
 
@@ -94,7 +102,10 @@ func (s *Script) Comment(c string) { s.add("; " + strings.ReplaceAll(c, "\n", " 
 func (s *Script) Text() string { return strings.Join(s.lines, "\n") + "\n" }
 
 func (s *Script) Clone() *Script {
-	c := &Script{lines: append([]string(nil), s.lines...), declared: map[string]string{}, n: s.n, paramName: s.paramName, size: s.size}
+	c := &Script{lines: append([]string(nil), s.lines...), declared: map[string]string{}, n: s.n, paramName: s.paramName, size: s.size, asserted: map[string]bool{}}
+	for k := range s.asserted {
+		c.asserted[k] = true
+	}
 	for k, v := range s.declared {
 		c.declared[k] = v
 	}
